@@ -69,10 +69,11 @@ KEYS = [b"\x1b[A", b"\x1b[B", b"\x1b[C", b"\x1b[D", b"\x1bOA", b"\x1bOP", b"\x1b
         b"\x1b[1;2A", b"\x1b[1;3B", b"\x1b[1;5C", b"\x1b[1;8D", b"\x1b[3;5~", b"\x1b[15;2~", b"\x1b[1;5P", b"\x1b[27;5;13~"]
 MOUSE_X10 = [x10(0, 1, 1), x10(1, 10, 20), x10(2, 80, 24), x10(3, 1, 1), x10(32 + 0, 2, 2), x10(32 + 1, 3, 3), x10(32 + 3, 4, 4),
              x10(64, 5, 5), x10(65, 5, 5), x10(66, 5, 5), x10(4 + 0, 6, 6), x10(8 + 1, 7, 7), x10(16 + 2, 8, 8), x10(16 + 3, 9, 9),
-             x10(90, 90, 90)]
+             x10(90, 90, 90),
+             x10(64 + 4, 5, 5), x10(65 + 16, 6, 7), x10(64 + 8, 8, 9), x10(65 + 4 + 16, 2, 3)]   # wheel with Shift / Ctrl / Meta
 MOUSE_SGR = [b"\x1b[<0;10;20M", b"\x1b[<0;10;20m", b"\x1b[<1;1;1M", b"\x1b[<2;200;100M", b"\x1b[<2;200;100m", b"\x1b[<32;11;21M",
              b"\x1b[<35;12;22M", b"\x1b[<64;5;5M", b"\x1b[<65;5;5M", b"\x1b[<4;3;3M", b"\x1b[<16;3;3M", b"\x1b[<8;3;3m",
-             b"\x1b[<3;3;3M", b"\x1b[<66;3;3M"]
+             b"\x1b[<3;3;3M", b"\x1b[<66;3;3M", b"\x1b[<68;5;5M", b"\x1b[<81;6;7M", b"\x1b[<72;8;9M"]
 MOUSE_RXVT = [b"\x1b[32;10;20M", b"\x1b[33;10;20M", b"\x1b[35;10;20M", b"\x1b[64;1;1M", b"\x1b[96;2;3M", b"\x1b[97;2;3M"]
 REPLIES = [b"\x1b[?1000;1$y", b"\x1b[?1006;2$y", b"\x1b[?25;0$y", b"\x1b[4;1$y", b"\x1bP1$r0 q\x1b\\", b"\x1bP1$r1;2m\x1b\\",
            b"\x1bP0$r\x1b\\", b"\x1b[10;20R", b"\x1b[?10;20R", b"\x1b[1;2;3x", b"\x1b]0;title\x1b\\"]
@@ -209,6 +210,31 @@ def gen(tier, seed, info):
                 streams.append((tt, st, ["%d~T2:0~100~T1:500000" % len(st)], "wait"))
                 nwait += 2
     info["wait_cases"] = nwait
+    # ---- empty fragments (a zero-length push, also while a sequence is pending) and handlers that CLAIM
+    #      every event (termtype "<name>%": the held-button histories, chords released by a button-less release)
+    nempty = 0
+    for tt in TERMS:
+        for it in timed_items:
+            for pre, post in ((b"", b""), (b"a", b"b")):
+                st = pre + it + post
+                for j in sorted(set([0, len(pre) + 1, len(pre) + len(it) - 1, len(st)])):
+                    if not 0 <= j <= len(st):
+                        continue
+                    streams.append((tt, st, [j, j], "empty"))
+                    streams.append((tt, st, ["%d+1000" % j, "%d+1000" % j, "%d+1000" % j], "empty"))
+                    nempty += 2
+    info["empty_fragment_cases"] = nempty
+    nclaim = 0
+    for tt in TERMS:
+        for hh in held_histories:
+            st = b"".join(hh)
+            streams.append((tt, st, [], "claim"))
+            streams.append((tt, st, list(range(1, len(st))), "claim"))
+            nclaim += 2
+        for it in MOUSE_X10 + MOUSE_SGR + KEYS[:6]:
+            streams.append((tt, b"a" + it + b"b", [2], "claim"))
+            nclaim += 1
+    info["claiming_handler_cases"] = nclaim
     info["timed_cases"] = ntimed
     info["timed_gaps_us"] = GAPS
     # ---- slow handlers: the application's key / mouse handlers take longer than the wait time
@@ -273,7 +299,7 @@ def gen(tier, seed, info):
     tags = {}
     for tt, s, cuts, tag in streams:
         tags[tag] = tags.get(tag, 0) + 1
-        slow = "@" + tag[4:] if tag.startswith("slow") else ""
+        slow = "@" + tag[4:] if tag.startswith("slow") else ("%" if tag == "claim" else "")
         yield "%s%s%s %s %s %s" % ("!" if tag[0] == "!" else "", tt, slow, h(s), ",".join(map(str, cuts)) or "-", toks[(tt, s)])
     info["cases_by_kind"] = tags
 
